@@ -85,6 +85,9 @@ int RunCase(const vh::Args& args, uint64_t c, e7::Affinity& aff)
     const int n_txs = rng.range(6, 20);
     const int n_ints = rng.range(2, 8);
     const bool allow_big_jump = rng.chance(1, 2);
+    // "slow clock" cases: mock time advances about as fast as real time, so that a wait really spans several of the
+    // one-second ticks of WaitAndCreateNewBlock before its mock deadline (otherwise the deadline always passes within the first tick)
+    const bool slow_clock = rng.chance(1, 3);
 
     TestOpts opts;
     opts.extra_args = {"-nodebuglogfile", "-nodebug"};
@@ -106,7 +109,7 @@ int RunCase(const vh::Args& args, uint64_t c, e7::Affinity& aff)
         LOCK(cs_main);
         const CBlockIndex* tip = chainman.ActiveChain().Tip();
         vh::log().rec(vh::J().u("case", c).str("ev", "init").str("tip", tip->GetBlockHash().ToString()).i("height", tip->nHeight).i("tip_time", tip->GetBlockTime())
-                          .i("mock", MockNowS()).i("waiters", n_waiters).i("cpus", ncpu).u("prob", prob).b("min_difficulty_chain", chainman.GetParams().GetConsensus().fPowAllowMinDifficultyBlocks));
+                          .i("mock", MockNowS()).i("waiters", n_waiters).i("cpus", ncpu).u("prob", prob).b("slow_clock", slow_clock).b("min_difficulty_chain", chainman.GetParams().GetConsensus().fPowAllowMinDifficultyBlocks));
     }
     e7::Begin(args.seed * 31 + c, prob);
 
@@ -130,7 +133,7 @@ int RunCase(const vh::Args& args, uint64_t c, e7::Affinity& aff)
                 static const double TO[] = {0, 300, 1500, 4000, 10000, 60000, 1800000};
                 static const CAmount TH[] = {MAX_MONEY, MAX_MONEY, 0, 1, 1000, 20000, 150000, 2000000};
                 node::BlockWaitOptions wo;
-                const double to_ms = TO[r.below(7)];
+                const double to_ms = TO[r.below(slow_clock ? 4 : 7)];
                 wo.timeout = MillisecondsDouble{to_ms};
                 wo.fee_threshold = TH[r.below(8)];
                 const CBlock pb = tmpl->getBlock();
@@ -292,9 +295,11 @@ int RunCase(const vh::Args& args, uint64_t c, e7::Affinity& aff)
         vh::Rng r(args.seed, c * 100 + 4);
         EvLog& L = logs[n_waiters + 3];
         while (!clock_stop.load()) {
-            RealSleepUs(r.range(5000, 40000));
-            int64_t step = r.range(0, 3);
+            const bool fin = sh.finish.load();
+            RealSleepUs(slow_clock && !fin ? r.range(300000, 700000) : r.range(5000, 40000));
+            int64_t step = slow_clock ? r.range(0, 1) : r.range(0, 3);
             if (sh.finish.load()) step = 7200;
+            else if (slow_clock) {}
             else if (allow_big_jump && r.chance(1, 60)) step = 1260 + r.range(0, 60);
             else if (r.chance(1, 25)) step = 30;
             const int64_t t = sh.mock_s.load() + step;
@@ -309,6 +314,10 @@ int RunCase(const vh::Args& args, uint64_t c, e7::Affinity& aff)
 
     // ---- join -------------------------------------------------------------------------------------------------------------
     for (size_t i = n_waiters; i < threads.size(); ++i) threads[i].join();
+    if (slow_clock) {
+        // let the waiters run against the slow clock for a while before the clock is fast-forwarded
+        for (int ms = 0; ms < 25000 && sh.waiters_done.load() < n_waiters; ms += 50) RealSleepUs(50000);
+    }
     sh.finish.store(true);
     const int stuck_s = static_cast<int>(args.geti("stuck_s", 180));
     for (int waited_ms = 0; sh.waiters_done.load() < n_waiters; waited_ms += 50) {
